@@ -514,13 +514,14 @@ func (t *Table) updateVPNIdx(u *Update, newPath, oldPath *Path) {
 	if len(u.KnownPathList) > 0 {
 		newBest = u.KnownPathList[0]
 	}
-	if oldBest != newBest {
-		if oldBest != nil && oldBest.RemoteID() == 0 {
-			// a path without path-ID is indexed only while it is the best one
-			t.vpnIdx.UnregisterPath(oldBest)
-		}
-		t.vpnIdx.RegisterPath(newBest)
+	if oldBest != newBest && oldBest != nil && oldBest.RemoteID() == 0 {
+		// a path without path-ID is indexed only while it is the best one
+		t.vpnIdx.UnregisterPath(oldBest)
 	}
+	// Always (re-)register the best path: when the very same path object is fed to the
+	// table again (soft-reset-in without a modifying import policy) it is its own
+	// oldPath, has just been unregistered above and is still the best path.
+	t.vpnIdx.RegisterPath(newBest)
 }
 
 // GetDestinations returns snapshots of all destinations in the table.
